@@ -75,6 +75,8 @@ MANY = [
      bytes.fromhex("010180" "020480" "030780")),
     ("a block argument applying a macro whose block parameter has the same name", "*=0x008000\n.macro w(code) {\nphp\n{{ code }}\nplp\n}\n.macro v(code) {\npha\n{{ code }}\npla\n}\nw({\nv({\nnop\n})\n})\nw({\nw({\ninx\n})\n})\n",
      bytes.fromhex("0848ea6828" "0808e82828")),
+    ("code-block arguments first, in the middle, and two of them", "*=0x008000\n.macro wrap(code, v) {\n.db v\n{{ code }}\n.db v\n}\n.macro mid(a, code, b) {\n.db a\n{{ code }}\n.db b\n}\n"
+     ".macro two(x, y) {\n{{ x }}\n{{ y }}\n}\nwrap({\nnop\n}, 7)\nmid(1, {\nclc\n}, 2)\ntwo({\nsei\n}, {\nnop\n})\n", bytes.fromhex("07ea07" "011802" "78ea")),
     ("recursion of depth 120 ended by .if", "*=0x008000\n.macro down(n) {\n.db n\n.if n {\ndown(n - 1)\n}\n}\ndown(120)\n", bytes(range(120, -1, -1))),
 ]
 
